@@ -197,6 +197,10 @@ namespace {
   ak::ContentPtr resolve(const ak::VirtualArray* v) {
     ak::ArrayGeneratorPtr g = v->generator();
     if (const SimGenerator* sg = dynamic_cast<const SimGenerator*>(g.get())) {
+      // (a generator may produce more than it declares: the array is what was declared)
+      if (g->length() >= 0  &&  g->length() < sg->st_->truth->length()) {
+        return sg->st_->truth->getitem_range_nowrap(0, g->length());
+      }
       return sg->st_->truth;
     }
     if (const ak::SliceGenerator* sl = dynamic_cast<const ak::SliceGenerator*>(g.get())) {
@@ -335,6 +339,15 @@ extern "C" {
     auto gh = get<GenHandle>(h, K_GEN);
     ak::FormPtr form = get<ak::Content>(content, K_CONTENT)->form(true);
     gh->gen = std::make_shared<SimGenerator>(form, gh->gen->length(), gh->st);
+    return 1;
+    AWS_CATCH(0)
+  }
+
+  // the generator declares another length than its truth has (fewer items: every generation is "too long")
+  int aws_gen_declare_length(long h, long length) {
+    AWS_TRY
+    auto gh = get<GenHandle>(h, K_GEN);
+    gh->gen = std::make_shared<SimGenerator>(gh->gen->form(), (int64_t)length, gh->st);
     return 1;
     AWS_CATCH(0)
   }
